@@ -58,9 +58,11 @@ func OpenPackage(L *LState) int {
 	L.SetField(packagemod, "loaders", loaders)
 	L.SetField(L.Get(RegistryIndex), "_LOADERS", loaders)
 
-	loaded := L.NewTable()
+	// RegisterModule above has created registry._LOADED (if it did not exist)
+	// and stored the package module in it: package.loaded must be that table,
+	// not a new one, or package.loaded.package is lost.
+	loaded := L.FindTable(L.Get(RegistryIndex).(*LTable), "_LOADED", 1)
 	L.SetField(packagemod, "loaded", loaded)
-	L.SetField(L.Get(RegistryIndex), "_LOADED", loaded)
 
 	L.SetField(packagemod, "path", LString(loGetPath(LuaPath, LuaPathDefault)))
 	L.SetField(packagemod, "cpath", emptyLString)
